@@ -52,7 +52,7 @@ def gen_case(rng, i, tier):
     if i % 8 == 3:
         p = G.add_tautologies(rng, p)
     mode = ["api_default", "api_ddnnf", "api_default", "api_ddnnf", "api_default", "cli"][i % 6]
-    return dict(prog=p, mode=mode, tier=tier)
+    return dict(prog=p, mode=mode, tier=tier, disj=(i % 5 == 2))
 
 
 def run_sut(case, text):
@@ -82,7 +82,7 @@ def run_case(case):
         return skip("reference too big", feats)
     F = G.refine_with_reference(F, R)
     feats = G.feat_list(F)
-    text = G.to_text(prog)
+    text = G.to_text(prog, disj=case.get("disj", False))
     o = run_sut(case, text)
     COUNTERS["sut_" + o["kind"]] += 1
     if R.status == "inconsistent":
